@@ -39,6 +39,22 @@ func c16Tree(cs int64) *Tree {
 		pl = append(pl, Obj{"patch": "apiVersion: apps/v1\nkind: Deployment\nmetadata:\n  name: " + g.Name + "\nspec:\n  template:\n    spec:\n      containers:\n      - name: main\n        env:\n        - name: A\n          value: b\n"})
 		L.Kust["patches"] = pl
 	}
+	// crds: name references derived from a CRD are merged into (what must be a private copy of) the default
+	// transformer configuration; a custom resource then refers to a ConfigMap of its layer
+	if r.Intn(2) == 0 {
+		cmName := "crd-cm-" + t.newID()
+		cm := t.mkSimple(r, 0, "ConfigMap", cmName, "")
+		ref := t.mkSimple(r, 0, "MyKind", "crd-ref-"+t.newID(), "")
+		ref.Obj["spec"].(Obj)["cmRef"] = Obj{"name": cmName}
+		L.ResF = append(L.ResF, "crdres.yaml")
+		L.Docs["crdres.yaml"] = []Obj{cm.Obj, ref.Obj}
+		L.Files["crd.json"] = strings.Replace(`{"example.com/v1.MyKind": {"Schema": {"properties": {"apiVersion": {"type": "string"}, "kind": {"type": "string"}, "metadata": {"$ref": "k8s.io/apimachinery/pkg/apis/meta/v1.ObjectMeta"}, "spec": {"$ref": "example.com/v1.MyKindSpec"}}}, "Dependencies": ["example.com/v1.MyKindSpec", "k8s.io/apimachinery/pkg/apis/meta/v1.ObjectMeta"]}, "example.com/v1.MyKindSpec": {"Schema": {"properties": {"cmRef": {"x-kubernetes-object-ref-api-version": "v1", "x-kubernetes-object-ref-kind": "KIND", "$ref": "example.com/v1.Ref"}}}, "Dependencies": ["example.com/v1.Ref"]}, "example.com/v1.Ref": {"Schema": {"properties": {"name": {"type": "string"}}}}}`, "KIND", pickS(r, []string{"ConfigMap", "ConfigMap", "Secret", "ServiceAccount"}), 1)
+		L.Kust["crds"] = []interface{}{"crd.json"}
+		if L.Prefix == "" {
+			L.Prefix = "c16-"
+			L.Kust["namePrefix"] = L.Prefix
+		}
+	}
 	return t
 }
 
